@@ -411,6 +411,16 @@ class Machine:
 
 # ------------------------------------------------------------------------------------------- pipeline probe
 
+KNOWN_FD = 'C19:mjd_stepFD-autoreset-inside-open-stack-frame'
+
+
+def warn_numbers(lib, d):
+  off = lib.layout['mjData']['fields']['warning']['off']
+  n = lib.enums.mjNWARNING
+  buf = (C.c_char * (8 * n)).from_address(d.ptr + off)
+  return np.frombuffer(buf, dtype=np.int32).reshape(n, 2)[:, 1]
+
+
 PIPE_EXCLUDE = {'mj_resetData', 'mj_resetCtrl', 'mj_checkPos', 'mj_checkVel', 'mj_checkAcc'}
 
 
@@ -517,8 +527,26 @@ def run_pipe(lib, h, variant, ck, case, fns):
         raise
       ncalls += 1
       if (int(d.pstack), int(d.pbase)) != (ps0, pb0):
-        raise Violation('%s returned with (pstack,pbase)=(%d,%#x), entered with (%d,%#x) [variant=%s]' % (
-            name, d.pstack, d.pbase, ps0, pb0, variant), bucket='pipe:' + name)
+        nreset = int(warn_numbers(lib, d)[[E.mjWARN_BADQPOS, E.mjWARN_BADQVEL, E.mjWARN_BADQACC]].sum())
+        if nreset and name in ('mj_step', 'mj_step1', 'mj_step2') and int(d.pstack) == 0:
+          # documented exception (programming/simulation, "mjData stack"): mj_resetData sets pstack = 0 and is called
+          # internally when an instability is detected in mj_step, mj_step1 and mj_step2
+          ck.label('pipe:documented-reset-in-' + name)
+          own = None
+          frame = None
+          break
+        msg = '%s returned with (pstack,pbase)=(%d,%#x), entered with (%d,%#x) [variant=%s]' % (
+            name, d.pstack, d.pbase, ps0, pb0, variant)
+        if nreset and name.startswith('mjd_'):
+          # known finding: the finite-difference derivatives step the model inside their own open stack frame; an
+          # automatic reset in there zeroes pstack under them
+          ck.violation(msg, dict(xml=gm.xml, seed=seed, frame=frame, call=name), bucket='pipe-fd-reset',
+                       fingerprint=KNOWN_FD)
+          ck.label('pipe:fd-reset-inside-frame')
+          own = None
+          frame = None
+          break
+        raise Violation(msg, bucket='pipe:' + name)
       if own:
         bad = h.c19_verify(own[0], own[1], own[2])
         if bad >= 0:
